@@ -9,7 +9,7 @@ THEOREMS = [
     'Tbox.C08.C08_cab_freelist', 'Tbox.C08.C08_cab_alloc_never_throws', 'Tbox.C08.C08_cab_lookup',
     'Tbox.C08.C08_cab_stale_forever', 'Tbox.C08.C08_cab_fresh_token', 'Tbox.C08.C08_cab_distinct',
     'Tbox.C08.C08_cab_size', 'Tbox.C08.C08_cab_foreach_effect', 'Tbox.C08.C08_cab_foreach_remove', 'Tbox.C08.C08_spec_dead_forever', 'Tbox.C08.C08_cab_lookup_counterexample', 'Tbox.C08.C08_cab_wrap_counterexample',
-    'Tbox.C08.C08_pool_no_alias', 'Tbox.C08.C08_pool_ctor_dtor', 'Tbox.C08.C08_pool_keep', 'Tbox.C08.C08_pool_stat',
+    'Tbox.C08.C08_pool_no_alias', 'Tbox.C08.C08_pool_ctor_dtor', 'Tbox.C08.C08_pool_keep', 'Tbox.C08.C08_pool_stat', 'Tbox.C08.C08_pool_no_leak',
     'Tbox.C08.C08_fd_refcount', 'Tbox.C08.C08_fd_close_once',
     'Tbox.C08.C08_lt_no_use_after_free', 'Tbox.C08.C08_lt_alive', 'Tbox.C08.C08_lt_free_once',
 ]
@@ -21,7 +21,8 @@ MAX_REPORT = 3
 TRUSTED = [
     'model lean/TboxModel/C08/Model.lean is hand-written from cabinet.hpp, cabinet_token.h, object_pool.hpp, fd.{h,cpp}, lifetime_tag.hpp; tied by differential runs',
     'Cabinet cell union {obj_ptr,next_free} is one word in the model; objects are numbers (0 = nullptr)',
-    'ObjectPool: the intrusive Block::next chain is abstracted to a list of block identities; malloc is a source of fresh identities; '
+    'ObjectPool: alloc()/free() are transcribed as begin/end events around the constructor/destructor call, which may make nested events on the same pool; '
+    'the intrusive Block::next chain is abstracted to a list of block identities; malloc is a source of fresh identities; '
     'use-after-free of real storage is observed on the implementation side only (ASan + the probe type registering its addresses)',
     'Fd: the kernel gives every open a descriptor that is not open at that moment (modelled as a fresh number); Detail* is an index into a heap list',
     'LifetimeTag: Detail* is an index into a heap list; a deleted record is recognised on the implementation side by ASan poisoning (quarantine)',
@@ -30,7 +31,7 @@ ASSUMPTIONS = ['fewer than 2^64-1 allocations on one Cabinet (id wrap-around exc
                'ObjectPool::free is only called with live objects of the same pool (API contract)',
                'malloc does not fail', 'ObjectPool::free of a pointer twice / of a foreign pointer is outside the contract and not modelled',
                'a foreach callback that allocates on every invocation is bounded by the initial cell count (code after patches/C08-02)']
-RULE = ('op histories over one Cabinet<int> (tokens retained for the whole history and re-queried with `scan`), one ObjectPool<Probe> '
+RULE = ('op histories over one Cabinet<int> (tokens retained for the whole history and re-queried with `scan`), one ObjectPool<Probe> (probe constructors/destructors run nested alloc/free scripts on the same pool) '
         'with 16 user slots and retention limits {0,1,2,3,5,16,max}, 8 Fd handles on real descriptors dup()ed from a pipe, and 4 LifetimeTag + 6 Watcher slots; '
         'non-trivial = the model run queries a stale token whose cell has been reused, or removes during foreach, or reuses a parked '
         'pool block after a release, or closes a descriptor through the last of several copies, or lets watchers outlive their tag / frees a tag record through its last watcher; distinct = distinct op text')
@@ -158,11 +159,33 @@ def gen_cab(rng, nops, target=None, scan_p=0.03):
     return g.ops
 
 
+def ptree(rng, live, depth):
+    """a random forest of nested pool calls: `A h v … a` / `F h … f` (the part in between is what the
+    probe's constructor / destructor does to the same pool)"""
+    toks = []
+    for _ in range(rng.choice([1, 1, 1, 2, 3])):
+        nest = depth < 4 and rng.random() < (0.6 if depth == 0 else 0.35)
+        if rng.random() < 0.55:
+            free = [x for x in range(16) if x not in live]
+            h = rng.choice(free) if free and rng.random() < 0.85 else rng.randrange(16)
+            toks += ['A', str(h), str(rng.randrange(1000000))]
+            if nest: toks += ptree(rng, live, depth + 1)
+            toks.append('a'); live.add(h)
+        else:
+            h = rng.choice(sorted(live)) if live and rng.random() < 0.85 else rng.randrange(16)
+            toks += ['F', str(h)]; live.discard(h)
+            if nest: toks += ptree(rng, live, depth + 1)
+            toks.append('f')
+    return toks
+
+
 def gen_pool(rng, nops):
     ops = ['pool new %s' % rng.choice(['0', '1', '2', '3', '5', '16', 'max'])]
     live = set()
     for _ in range(nops):
         x = rng.random()
+        if rng.random() < 0.35:
+            ops.append('pool x ' + ' '.join(ptree(rng, live, 0))); continue
         if x < 0.45:
             h = rng.randrange(16) if rng.random() < 0.8 or len(live) == 16 else rng.choice([s for s in range(16) if s not in live])
             ops.append('pool alloc %d %d' % (h, rng.randrange(1000000))); live.add(h)
@@ -260,6 +283,13 @@ def gen(rng, tier):
     yield ['pool new 1', 'pool alloc 0 10', 'pool alloc 1 11', 'pool free 0', 'pool free 1', 'pool alloc 2 12', 'pool alloc 3 13',
            'pool alloc 3 14', 'pool free 5', 'pool stat', 'pool new 0', 'pool alloc 0 1', 'pool free 0', 'pool alloc 0 2',
            'pool alloc 1 3', 'pool drop 2', 'pool alloc 0 4', 'pool alloc 1 5', 'pool free 0', 'pool free 1', 'pool alloc 2 6', 'pool stat', 'pool drop max']
+    # re-entrancy: with parked blocks available, a constructor that allocates a child from the same pool,
+    # a destructor that frees the child / another object / allocates
+    yield ['pool new 2', 'pool alloc 0 1', 'pool alloc 1 2', 'pool free 0', 'pool free 1', 'pool x A 2 5 A 3 6 a a', 'pool stat',
+           'pool x F 2 F 3 f f', 'pool x A 4 7 A 5 8 A 6 9 a a F 5 f a', 'pool x F 4 A 7 1 a F 6 f f', 'pool x A 8 1 A 8 2 a F 8 f a',
+           'pool x F 7 F 7 f A 7 3 a f', 'pool stat', 'pool new 0', 'pool x A 0 1 A 1 2 a a F 0 F 1 f f']
+    yield ['pool x', 'pool x A', 'pool x A 0', 'pool x A 0 1', 'pool x A 0 1 f', 'pool x F 0 a', 'pool x a', 'pool x A 16 1 a', 'pool x F 16 f',
+           'pool x A 0 1 a a', 'pool x A 0 1 a', 'pool x ' + 'A 0 1 ' * 17 + 'a ' * 17, 'pool x ' + 'A 0 1 ' * 16 + 'a ' * 16, 'pool stat']
     yield ['fd open 0 fn', 'fd cpa 1 0', 'fd cpa 1 0', 'fd cpa 0 0', 'fd mva 0 0', 'fd cpc 2 1', 'fd reset 0', 'fd close 1', 'fd close 2',
            'fd reset 1', 'fd reset 2', 'fd open 3 raw', 'fd mvc 4 3', 'fd swap 4 4', 'fd swap 3 4', 'fd mva 3 3', 'fd new 3', 'fd new 4']
     # LifetimeTag: tag dies first / watchers die first; copies of null watchers; tag copies get their own record
@@ -292,13 +322,25 @@ def gen(rng, tier):
         for L in range(1, 6):
             for seq in itertools.product(alpha, repeat=L):
                 yield list(seq) + ['fd new 0', 'fd new 1']
+        alpha = ['A 0 1', 'A 1 2', 'A 2 3', 'a', 'F 0', 'F 1', 'f']
+        def nested_ok(seq):
+            st = []
+            for t in seq:
+                if t[0] in 'AF': st.append(t[0])
+                elif not st or st.pop() != t.upper(): return False
+            return not st
+        for L in range(2, 9, 2):
+            for seq in itertools.product(alpha, repeat=L):
+                if nested_ok(seq):
+                    yield ['pool new %s' % rng.choice(['1', '2', 'max']), 'pool alloc 5 9', 'pool alloc 6 9', 'pool free 5', 'pool free 6',
+                           'pool x ' + ' '.join(seq), 'pool stat']
         alpha = ['lt tnew 0', 'lt tdel 0', 'lt wset 0 0', 'lt wcpa 1 0', 'lt wmva 0 1', 'lt wreset 0', 'lt wcpc 1 0', 'lt tcpc 1 0']
         for L in range(1, 5):
             for seq in itertools.product(alpha, repeat=L):
                 yield list(seq) + rng.choice([['lt tdel 0', 'lt tdel 1', 'lt wnew 0', 'lt wnew 1'], ['lt wnew 0', 'lt wnew 1', 'lt tdel 0', 'lt tdel 1']])
 
 
-KEY_TAGS = ('pool-drop-live', 'w-last-frees', 't-outlived-by-watchers', 'tok-stale-reused', 'each-removed', 'each-cb-grew', 'pool-reuse', 'rel-last-closes', 'close-shared')
+KEY_TAGS = ('pool-ctor-alloc-parked', 'pool-dtor-alloc-parked', 'pool-dtor-free', 'pool-drop-live', 'w-last-frees', 't-outlived-by-watchers', 'tok-stale-reused', 'each-removed', 'each-cb-grew', 'pool-reuse', 'rel-last-closes', 'close-shared')
 
 
 def nontrivial(ops, model_lines):
